@@ -25,6 +25,26 @@ def eval_fields(F):
     return [f["n"] for f in a["variants"][0]["fields"]]
 
 
+def describe_full(w, env, op):
+    """(variant, ((field idx, value), ...)) with every tracked scalar / enum payload field."""
+    v = w.val(env, op)
+    if isinstance(v, tuple) and v[0] == "var":
+        key = w.place_key_of_operand(env, op)
+        pays = []
+        if key is not None:
+            a = w.F.adts.get(v[1])
+            base = key + ("@%s" % v[2] if a and a["kind"] == "enum" else "")
+            pre = base + "."
+            for k, pv in env.items():
+                if k.startswith(pre) and k[len(pre):].isdigit():
+                    if isinstance(pv, int):
+                        pays.append((int(k[len(pre):]), pv))
+                    elif isinstance(pv, tuple) and pv[0] == "var":
+                        pays.append((int(k[len(pre):]), pv[2]))
+        return (v[2], tuple(sorted(pays)))
+    return describe(w, env, op)
+
+
 def describe(w, env, op):
     """Short description of an operand's tracked value for marks."""
     v = w.val(env, op)
@@ -90,7 +110,8 @@ class Marker:
         if n == "<alloc::vec::Vec>::push":
             st = self.stack_of(w, env, t["xs"][0])
             if st is not None:
-                return ("push", st, describe(w, env, t["xs"][1]))
+                d = describe_full if getattr(self, "full", False) else describe
+                return ("push", st, d(w, env, t["xs"][1]))
             return None
         if self.want_calls and n.startswith("<%s>::" % EVAL):
             short = n.rsplit("::", 1)[1]
